@@ -93,9 +93,10 @@ Lemma step_err_avail r done o : step_err r done o = None -> avail r o = true.
 Proof.
   unfold step_err, avail.
   destruct (is_deferred r && negb (deferred_op o)); [discriminate|].
-  generalize (e_sap (env_of r)) (e_orc (env_of r)) (e_iw (env_of r)) (e_cross (env_of r)).
-  intros a b c d.
-  destruct o; try reflexivity; destruct a, b, c, d; cbn [negb]; try reflexivity; congruence.
+  generalize (e_sap (env_of r)) (e_orc (env_of r)) (e_iw (env_of r)) (e_cross (env_of r)) (r_coinbase r).
+  intros a b c d cb.
+  destruct o; try reflexivity; destruct a, b, c, d, cb; cbn [negb andb]; try reflexivity; try congruence;
+    try (destruct nv3; cbn [negb]; congruence).
 Qed.
 
 Lemma run_ops_ok r : forall todo done hd i hd',
@@ -220,12 +221,46 @@ Proof.
   - rewrite Z.eqb_refl. cbn. lia.
 Qed.
 
+(* ------------------------------------------------------------ the signing step *)
+Lemma sign_check_err ow keys ks e : sign_check ow keys ks = Err e -> e = ETransparentBuild.
+Proof.
+  induction ks as [|k ks IH]; cbn [sign_check]; intros H.
+  - destruct ow; discriminate.
+  - destruct k as [|m n|].
+    + destruct ow; [auto|discriminate].
+    + destruct (negb ow); [discriminate|]. destruct (p2sh_signable keys (m, n)); [auto|now inversion H].
+    + now inversion H.
+Qed.
+Lemma sign_check_panic ow keys ks : sign_check ow keys ks = Panic -> ow = false.
+Proof.
+  induction ks as [|k ks IH]; cbn [sign_check]; intros H.
+  - destruct ow; [discriminate|reflexivity].
+  - destruct k as [|m n|].
+    + destruct ow; [auto|reflexivity].
+    + destruct ow; [|reflexivity]. cbn [negb] in H. destruct (p2sh_signable keys (m, n)); [auto|discriminate].
+    + discriminate.
+Qed.
+(** which inputs can be signed *)
+Definition signable_kind (keys : list Z) (k : tkind) : bool :=
+  match k with KPkh => true | KSh m n => p2sh_signable keys (m, n) | KRaw => false end.
+Lemma sign_check_ok ow keys ks u : sign_check ow keys ks = Ok u ->
+  ow = true /\ forallb (signable_kind keys) ks = true.
+Proof.
+  induction ks as [|k ks IH]; cbn [sign_check forallb]; intros H.
+  - destruct ow; [auto|discriminate].
+  - destruct k as [|m n|].
+    + destruct ow; [|discriminate]. apply IH in H. cbn [signable_kind andb]. tauto.
+    + destruct ow; [|discriminate]. cbn [negb] in H. cbn [signable_kind].
+      destruct (p2sh_signable keys (m, n)); [|discriminate]. apply IH in H. cbn [andb]. tauto.
+    + discriminate.
+Qed.
+
 (* ------------------------------------------------------------ inversion of a successful build *)
 Definition route_ok (r : req) (hd : ver * Z) : Prop :=
   match r_route r with
   | Pczt | Deferred => e_sap (env_of r) && negb (zip212_on (r_net r) (r_height r)) = false
   | _ => has_overwinter (fst hd) = true /\
-         forallb (p2sh_signable (r_keys r)) (tsh_mn (r_ops r)) = true
+         forallb (signable_kind (r_keys r)) (tkinds (r_ops r)) = true
   end.
 
 Lemma finish_ok_inv r hd b : finish r hd = Ok b ->
@@ -248,13 +283,13 @@ Proof.
               match r_route r with
               | Pczt | Deferred => e_sap (env_of r) && negb (zip212_on (r_net r) (r_height r)) = false
               | _ => has_overwinter (fst hd) = true /\
-                     forallb (p2sh_signable (r_keys r)) (tsh_mn (r_ops r)) = true
+                     forallb (signable_kind (r_keys r)) (tkinds (r_ops r)) = true
               end).
   { destruct (r_route r).
-    - destruct (has_overwinter (fst hd)); [|discriminate]. cbn [negb] in H.
-      destruct (forallb _ _); [inversion H; auto|discriminate].
-    - destruct (has_overwinter (fst hd)); [|discriminate]. cbn [negb] in H.
-      destruct (forallb _ _); [inversion H; auto|discriminate].
+    - destruct (sign_check _ _ _) as [u| |] eqn:SC; try discriminate.
+      apply sign_check_ok in SC. inversion H. auto.
+    - destruct (sign_check _ _ _) as [u| |] eqn:SC; try discriminate.
+      apply sign_check_ok in SC. inversion H. auto.
     - destruct (e_sap (env_of r) && negb (zip212_on (r_net r) (r_height r)));
         [discriminate|inversion H; auto].
     - destruct (e_sap (env_of r) && negb (zip212_on (r_net r) (r_height r)));
@@ -262,7 +297,7 @@ Proof.
   destruct G as [G1 G2]. repeat split; auto.
 Qed.
 
-Lemma build_ok_inv r b : build r = Ok b ->
+Lemma build_ok_inv r b : r_coinbase r = false -> build r = Ok b ->
   exists hd fee,
     run_ops r [] (r_ops r) (init_hdr r) 0 = Ok hd /\
     fee_required (r_rule r) (req_shape r) = Some fee /\
@@ -270,14 +305,15 @@ Lemma build_ok_inv r b : build r = Ok b ->
     value_balance r = Ok fee /\
     b = assemble r hd fee /\ route_ok r hd.
 Proof.
-  unfold build. intros H. destruct (deferral_refused r); [discriminate|].
+  unfold build. intros CB H. destruct (deferral_refused r); [discriminate|].
   destruct (run_ops r [] (r_ops r) (init_hdr r) 0) as [hd| |] eqn:R; try discriminate.
-  apply finish_ok_inv in H. destruct H as (fee & H). exists hd, fee. tauto.
+  rewrite CB in H. apply finish_ok_inv in H. destruct H as (fee & H). exists hd, fee. tauto.
 Qed.
 
 Lemma fee_required_some ru s fee : fee_required ru s = Some fee -> fee = rule_fee ru s /\ fee <= MAX_MONEY.
 Proof.
-  unfold fee_required. destruct (rule_fee ru s <=? MAX_MONEY) eqn:E; [|discriminate].
+  unfold fee_required. destruct (match ru with RZip317 => has_unknown_size s | RLin _ => false end); [discriminate|].
+  destruct (rule_fee ru s <=? MAX_MONEY) eqn:E; [|discriminate].
   intros H; inversion H. split; [reflexivity|lia].
 Qed.
 
@@ -336,10 +372,13 @@ Proof.
 Qed.
 
 Lemma env_iw r : e_iw (env_of r) =
-  is_deferred r || r_iw r && branch_has_ironwood (branch_at (r_net r) (r_height r)).
+  if r_coinbase r then branch_has_ironwood (branch_at (r_net r) (r_height r))
+  else is_deferred r || r_iw r && branch_has_ironwood (branch_at (r_net r) (r_height r)).
 Proof. unfold env_of. cbn [e_iw]. destruct (branch_at (r_net r) (r_height r)); reflexivity. Qed.
 Lemma env_orc r : e_orc (env_of r) =
-  is_deferred r || r_orc r && branch_has_orchard (branch_at (r_net r) (r_height r)).
+  if r_coinbase r
+  then branch_has_orchard (branch_at (r_net r) (r_height r)) && negb (branch_has_ironwood (branch_at (r_net r) (r_height r)))
+  else is_deferred r || r_orc r && branch_has_orchard (branch_at (r_net r) (r_height r)).
 Proof. reflexivity. Qed.
 
 Lemma in_use_implies_needs r ops :
@@ -348,12 +387,12 @@ Lemma in_use_implies_needs r ops :
 Proof.
   unfold orchard_in_use, needs_orchard, ironwood_in_use, needs_ironwood.
   rewrite env_iw, env_orc. split; intros H; apply andb_prop in H; destruct H as [H1 H2].
-  - rewrite H1. rewrite andb_true_l.
-    destruct (nonempty (os_vals ops) || nonempty (oo_vals ops) || nonempty (oc_vals ops)) eqn:E;
-      [reflexivity|]. cbn [orb] in *. exact H2.
-  - rewrite H1. rewrite andb_true_l.
-    destruct (nonempty (is_vals ops) || nonempty (io_vals ops)) eqn:E; [reflexivity|].
-    cbn [orb] in *. exact H2.
+  - destruct (nonempty (os_vals ops) || nonempty (oo_vals ops) || nonempty (oc_vals ops)) eqn:E;
+      [reflexivity|]. cbn [orb] in *. apply andb_prop in H2. destruct H2 as [H2 H3].
+    destruct (r_coinbase r); [discriminate|]. rewrite H1, H3. reflexivity.
+  - destruct (nonempty (is_vals ops) || nonempty (io_vals ops)) eqn:E; [reflexivity|].
+    cbn [orb] in *. apply andb_prop in H2. destruct H2 as [H2 H3].
+    destruct (r_coinbase r); [discriminate|]. rewrite H1, H3. reflexivity.
 Qed.
 
 Lemma check_version_some r ops v e : check_version r ops v = Some e ->
@@ -385,6 +424,7 @@ Section Assembled.
   Variable fee : Z.
   Hypothesis F : Forall (fun o => avail r o = true) (r_ops r).
   Hypothesis C : check_version r (r_ops r) (fst hd) = None.
+  Hypothesis NCB : r_coinbase r = false.
   Let ops := r_ops r.
   Let e := env_of r.
   Let b := assemble r hd fee.
@@ -396,7 +436,7 @@ Section Assembled.
     intros Ei Hv. destruct (check_version_none _ _ _ C) as (_ & _ & _ & Hi).
     destruct (ironwood_in_use r (r_ops r)) eqn:U.
     - specialize (Hi eq_refl). rewrite Hv in Hi. discriminate.
-    - unfold ironwood_in_use in U. fold e in U. rewrite Ei in U. cbn [andb] in U.
+    - unfold ironwood_in_use in U. fold e in U. rewrite Ei, NCB in U. cbn [andb negb] in U.
       apply orb_false_elim in U. destruct U as [U U3]. apply orb_false_elim in U. destruct U as [U1 U2].
       apply nonempty_false in U1, U2. subst ops. now rewrite U1, U2.
   Qed.
@@ -404,7 +444,7 @@ Section Assembled.
   Lemma orc_not_in_use : e_orc e = true -> orchard_in_use r ops = false ->
     os_vals ops = [] /\ oo_vals ops = [] /\ oc_vals ops = [] /\ p_req (r_opad r) = false.
   Proof.
-    intros Eo U. unfold orchard_in_use in U. fold e in U. rewrite Eo in U. cbn [andb] in U.
+    intros Eo U. unfold orchard_in_use in U. fold e in U. rewrite Eo, NCB in U. cbn [andb negb] in U.
     apply orb_false_elim in U. destruct U as [U U4]. apply orb_false_elim in U. destruct U as [U U3].
     apply orb_false_elim in U. destruct U as [U1 U2].
     apply nonempty_false in U1, U2, U3. auto.
@@ -412,14 +452,14 @@ Section Assembled.
   Lemma iw_not_in_use : e_iw e = true -> ironwood_in_use r ops = false ->
     is_vals ops = [] /\ io_vals ops = [] /\ p_req (r_ipad r) = false.
   Proof.
-    intros Ei U. unfold ironwood_in_use in U. fold e in U. rewrite Ei in U. cbn [andb] in U.
+    intros Ei U. unfold ironwood_in_use in U. fold e in U. rewrite Ei, NCB in U. cbn [andb negb] in U.
     apply orb_false_elim in U. destruct U as [U U3]. apply orb_false_elim in U. destruct U as [U1 U2].
     apply nonempty_false in U1, U2. auto.
   Qed.
   Lemma not_deferred_of_orc : e_orc e = false -> is_deferred r = false.
-  Proof. subst e. rewrite env_orc. intros H. apply orb_false_elim in H. tauto. Qed.
+  Proof. subst e. rewrite env_orc, NCB. intros H. apply orb_false_elim in H. tauto. Qed.
   Lemma not_deferred_of_iw : e_iw e = false -> is_deferred r = false.
-  Proof. subst e. rewrite env_iw. intros H. apply orb_false_elim in H. tauto. Qed.
+  Proof. subst e. rewrite env_iw, NCB. intros H. apply orb_false_elim in H. tauto. Qed.
 
   Lemma sap_facts :
     bundle_vb (b_sap b) = zsum (ss_vals ops) - zsum (so_vals ops) /\
@@ -595,34 +635,177 @@ Proof.
   - inversion H. apply Z.eqb_refl.
 Qed.
 
-Lemma built_fee r b : build r = Ok b ->
+Lemma built_fee r b : r_coinbase r = false -> build r = Ok b ->
   fee_paid b = rule_fee (r_rule r) (req_shape r) /\
   tx_shape b = req_shape r /\
   fee_paid b = requested_balance (r_ops r) /\
   b_fee_paid b = if is_pczt r then None else Some (fee_paid b).
 Proof.
-  intros H. apply build_ok_inv in H. destruct H as (hd & fee & R & Fe & C & V & -> & _).
+  intros NCB H. apply build_ok_inv in H; [|exact NCB]. destruct H as (hd & fee & R & Fe & C & V & -> & _).
   destruct (run_ops_hdr _ _ R) as (_ & _ & F).
-  pose proof (assemble_fee_paid r hd fee F C) as P.
-  pose proof (assemble_shape r hd fee F C) as S.
+  pose proof (assemble_fee_paid r hd fee F C NCB) as P.
+  pose proof (assemble_shape r hd fee F C NCB) as S.
   apply value_balance_exact in V; [|exact F]. apply fee_required_some in Fe. destruct Fe as [Fe _].
   repeat split; try congruence.
   rewrite P, <- V. unfold assemble. cbn [b_fee_paid]. destruct (is_pczt r); reflexivity.
 Qed.
 
+(* ------------------------------------------------------------ the coinbase configuration *)
+Definition no_spend (o : op) : bool :=
+  match o with SSpend _ | OSpend _ | ISpend _ _ => false | _ => true end.
+
+Lemma step_err_cb r done o : r_coinbase r = true -> step_err r done o = None -> no_spend o = true.
+Proof.
+  intros CB. unfold step_err, no_spend. rewrite CB.
+  destruct (is_deferred r && negb (deferred_op o)); [discriminate|].
+  generalize (e_sap (env_of r)) (e_orc (env_of r)) (e_iw (env_of r)). intros a b c.
+  destruct o; try reflexivity; destruct a, b, c; cbn [negb andb]; try discriminate;
+    try (destruct nv3; cbn [negb]; discriminate).
+Qed.
+
+Lemma run_ops_cb r : r_coinbase r = true -> forall todo done hd i hd',
+  run_ops r done todo hd i = Ok hd' -> Forall (fun o => no_spend o = true) todo.
+Proof.
+  intros CB. induction todo as [|o todo IH]; intros done hd i hd' H; cbn [run_ops] in H; [constructor|].
+  destruct (step_err r done o) eqn:E; [discriminate|].
+  constructor; [eapply step_err_cb; eauto|eapply IH; eauto].
+Qed.
+
+Lemma no_spend_lists ops : Forall (fun o => no_spend o = true) ops ->
+  ss_vals ops = [] /\ os_vals ops = [] /\ is_vals ops = [].
+Proof.
+  unfold ss_vals, os_vals, is_vals. induction 1 as [|o l Ho _ IH]; [auto|].
+  destruct IH as (I1 & I2 & I3). cbn [flat_map]. rewrite I1, I2, I3.
+  destruct o; cbn in *; try discriminate; auto.
+Qed.
+
+Lemma tin_nil_tkinds ops : tin_vs ops = [] -> tkinds ops = [].
+Proof.
+  unfold tin_vs, tkinds. induction ops as [|o ops IH]; [reflexivity|].
+  cbn [flat_map]. intros H. apply app_eq_nil in H. destruct H as [H1 H2].
+  rewrite (IH H2). destruct o; cbn in *; try discriminate; reflexivity.
+Qed.
+
+Lemma finish_cb_ok_inv r hd b : finish_cb r hd = Ok b ->
+  check_version r (r_ops r) (fst hd) = None /\ snd hd = r_height r /\ tin_vs (r_ops r) = [] /\
+  has_overwinter (fst hd) = true /\ b = assemble_cb r hd.
+Proof.
+  unfold finish_cb. intros H.
+  destruct (check_version r (r_ops r) (fst hd)); [discriminate|].
+  destruct (snd hd =? r_height r) eqn:E; [|discriminate]. cbn [negb] in H.
+  destruct (nonempty (tin_vs (r_ops r))) eqn:N; [discriminate|].
+  destruct (r_height r =? 0); [discriminate|].
+  destruct (negb (in_bal (zsum (so_vals (r_ops r))))); [discriminate|].
+  destruct (e_orc (env_of r) && negb _); [discriminate|].
+  destruct (e_iw (env_of r) && negb _); [discriminate|].
+  destruct (has_overwinter (fst hd)); [|discriminate].
+  inversion H. repeat split; auto. lia. now apply nonempty_false.
+Qed.
+
+Lemma build_cb_ok_inv r b : r_coinbase r = true -> build r = Ok b ->
+  exists hd, run_ops r [] (r_ops r) (init_hdr r) 0 = Ok hd /\
+    check_version r (r_ops r) (fst hd) = None /\ snd hd = r_height r /\ tin_vs (r_ops r) = [] /\
+    has_overwinter (fst hd) = true /\ b = assemble_cb r hd.
+Proof.
+  unfold build. intros CB H. destruct (deferral_refused r); [discriminate|].
+  destruct (run_ops r [] (r_ops r) (init_hdr r) 0) as [hd| |] eqn:R; try discriminate.
+  rewrite CB in H. apply finish_cb_ok_inv in H. exists hd. tauto.
+Qed.
+
+Section AssembledCb.
+  Variable r : req.
+  Variable hd : ver * Z.
+  Hypothesis CB : r_coinbase r = true.
+  Hypothesis F : Forall (fun o => avail r o = true) (r_ops r).
+  Hypothesis NS : Forall (fun o => no_spend o = true) (r_ops r).
+  Hypothesis TI : tin_vs (r_ops r) = [].
+  Hypothesis C : check_version r (r_ops r) (fst hd) = None.
+  Let ops := r_ops r.
+  Let b := assemble_cb r hd.
+
+  Lemma cb_bundle outs : pool_okb (if 0 <? len outs then Some (mk_bundle false (len outs) (len outs) (- zsum outs) [] outs) else None) [] outs = true.
+  Proof.
+    pose proof (len_nonneg outs). destruct (0 <? len outs) eqn:E.
+    - apply pool_okb_bundle; [cbn; lia|lia|cbn; lia].
+    - assert (len outs = 0) by lia. apply len_zero_nil in H0. subst. reflexivity.
+  Qed.
+
+  Lemma cb_contents : contents_okb ops b = true.
+  Proof.
+    destruct (no_spend_lists _ NS) as (Z1 & Z2 & Z3). fold ops in Z1, Z2, Z3.
+    unfold contents_okb. subst b. unfold assemble_cb. cbn [b_tin b_tout b_sap b_orc b_iw]. fold ops.
+    rewrite Z1, Z2, Z3. fold ops in TI. rewrite TI. rewrite lzz_refl. cbn [list_eqb andb].
+    assert (S : pool_okb (if 0 <? len (so_vals ops)
+                 then Some (mk_bundle false 0 (len (so_vals ops)) (- zsum (so_vals ops)) [] (so_vals ops)) else None)
+                [] (so_vals ops) = true).
+    { pose proof (len_nonneg (so_vals ops)). destruct (0 <? len (so_vals ops)) eqn:E.
+      - apply pool_okb_bundle; [cbn; lia|lia|cbn; lia].
+      - assert (L : len (so_vals ops) = 0) by lia. apply len_zero_nil in L. rewrite L. reflexivity. }
+    rewrite S. cbn [andb].
+    assert (O : pool_okb (if e_orc (env_of r) && (0 <? len (oo_vals ops ++ oc_vals ops))
+                 then Some (mk_bundle false (len (oo_vals ops ++ oc_vals ops)) (len (oo_vals ops ++ oc_vals ops))
+                              (- zsum (oo_vals ops ++ oc_vals ops)) [] (oo_vals ops ++ oc_vals ops)) else None)
+                [] (oo_vals ops ++ oc_vals ops) = true).
+    { destruct (e_orc (env_of r)) eqn:E; cbn [andb]; [apply cb_bundle|].
+      destruct (avail_no_orchard r _ F E) as (_ & -> & ->). reflexivity. }
+    rewrite O. cbn [andb].
+    destruct (e_iw (env_of r)) eqn:E; cbn [andb]; [apply cb_bundle|].
+    destruct (avail_no_ironwood r _ F E) as (_ & ->). reflexivity.
+  Qed.
+
+  Lemma cb_version : version_okb r b = true.
+  Proof.
+    destruct (check_version_none _ _ _ C) as (Vb & Hs & Ho & Hi).
+    unfold version_okb. subst b. unfold assemble_cb. cbn [b_ver b_sap b_orc b_iw]. fold ops.
+    change (branch_at (r_net r) (r_height r)) with (e_branch (env_of r)). rewrite Vb. cbn [andb].
+    apply andb_true_intro. split; [apply andb_true_intro; split|].
+    - destruct (0 <? len (so_vals ops)) eqn:E; [|reflexivity].
+      cbn [b_nsp b_nout mk_bundle sb_nsp sb_nout].
+      replace (0 + len (so_vals ops) =? 0) with false by lia. cbn [orb]. apply Hs.
+      unfold sapling_in_use. fold ops. rewrite (len_pos_nonempty (so_vals ops)) by lia. now rewrite orb_true_r.
+    - destruct (e_orc (env_of r)) eqn:Eo; cbn [andb]; [|reflexivity].
+      destruct (0 <? len (oo_vals ops ++ oc_vals ops)) eqn:E; [|reflexivity].
+      cbn [b_nout mk_bundle sb_nout]. replace (len (oo_vals ops ++ oc_vals ops) =? 0) with false by lia.
+      cbn [orb]. apply Ho. unfold orchard_in_use. rewrite Eo. cbn [andb]. fold ops.
+      rewrite len_app in E.
+      destruct (nonempty (oo_vals ops)) eqn:N1; [now rewrite !orb_true_r|].
+      destruct (nonempty (oc_vals ops)) eqn:N2; [now rewrite !orb_true_r|].
+      apply nonempty_false in N1, N2. rewrite N1, N2 in E. cbn in E. discriminate.
+    - destruct (e_iw (env_of r)) eqn:Ei; cbn [andb]; [|reflexivity].
+      destruct (0 <? len (io_vals ops)) eqn:E; [|reflexivity].
+      cbn [b_nout mk_bundle sb_nout]. replace (len (io_vals ops) =? 0) with false by lia.
+      cbn [orb]. apply Hi. unfold ironwood_in_use. rewrite Ei. cbn [andb]. fold ops.
+      rewrite (len_pos_nonempty (io_vals ops)) by lia. now rewrite !orb_true_r.
+  Qed.
+End AssembledCb.
+
 Lemma built_contents r b : build r = Ok b -> contents_okb (r_ops r) b = true.
 Proof.
-  intros H. apply build_ok_inv in H. destruct H as (hd & fee & R & _ & C & _ & -> & _).
-  destruct (run_ops_hdr _ _ R) as (_ & _ & F). now apply assemble_contents.
+  intros H. destruct (r_coinbase r) eqn:CB.
+  - apply build_cb_ok_inv in H; [|exact CB]. destruct H as (hd & R & C & _ & TI & _ & ->).
+    destruct (run_ops_hdr _ _ R) as (_ & _ & F). pose proof (run_ops_cb r CB _ _ _ _ _ R) as NS.
+    now apply cb_contents.
+  - apply build_ok_inv in H; [|exact CB]. destruct H as (hd & fee & R & _ & C & _ & -> & _).
+    destruct (run_ops_hdr _ _ R) as (_ & _ & F). now apply assemble_contents.
+Qed.
+
+Lemma malformed_no_inputs r : tin_vs (r_ops r) = [] -> malformed_script_sig r = false.
+Proof.
+  intros H. unfold malformed_script_sig. rewrite (tin_nil_tkinds _ H). cbn [existsb]. apply andb_false_r.
 Qed.
 
 Lemma built_header r b : build r = Ok b ->
   b_ver b = requested_version r /\ b_expiry b = requested_expiry r /\ b_lock b = 0 /\
-  b_branch b = branch_id (branch_at (r_net r) (r_height r)) /\ b_dec b = true /\ b_sig b = true.
+  b_branch b = branch_id (branch_at (r_net r) (r_height r)) /\ b_dec b = true /\
+  b_sig b = negb (malformed_script_sig r).
 Proof.
-  intros H. apply build_ok_inv in H. destruct H as (hd & fee & R & _ & _ & _ & -> & _).
-  destruct (run_ops_hdr _ _ R) as (Hv & He & _). unfold assemble.
-  cbn [b_ver b_expiry b_lock b_branch b_dec b_sig]. repeat split; auto.
+  intros H. destruct (r_coinbase r) eqn:CB.
+  - apply build_cb_ok_inv in H; [|exact CB]. destruct H as (hd & R & _ & _ & TI & _ & ->).
+    destruct (run_ops_hdr _ _ R) as (Hv & He & _). unfold assemble_cb.
+    cbn [b_ver b_expiry b_lock b_branch b_dec b_sig]. rewrite (malformed_no_inputs _ TI). repeat split; auto.
+  - apply build_ok_inv in H; [|exact CB]. destruct H as (hd & fee & R & _ & _ & _ & -> & _).
+    destruct (run_ops_hdr _ _ R) as (Hv & He & _). unfold assemble.
+    cbn [b_ver b_expiry b_lock b_branch b_dec b_sig]. repeat split; auto.
 Qed.
 
 Lemma built_version r b : build r = Ok b -> version_okb r b = true.
@@ -843,6 +1026,14 @@ Proof.
     split; [apply ver_eqb_refl|exact Rf].
 Qed.
 
+Lemma value_balance_not_panic r : value_balance r <> Panic.
+Proof.
+  unfold value_balance.
+  repeat match goal with
+  | |- context [match ?x with _ => _ end] => destruct x
+  end; discriminate.
+Qed.
+
 Lemma build_panic r : build r = Panic -> panic_class r = true.
 Proof.
   unfold build. intros H.
@@ -858,27 +1049,13 @@ Proof.
     destruct (bal - z <? 0); [discriminate|]. destruct (0 <? bal - z); [discriminate|].
     rewrite <- Hv.
     destruct (r_route r).
-    + destruct (has_overwinter (fst hd)); [|now rewrite orb_true_r].
+    + destruct (has_overwinter (fst hd)); [|reflexivity].
       cbn [negb] in H. destruct (forallb _ _); discriminate.
-    + destruct (has_overwinter (fst hd)); [|now rewrite orb_true_r].
+    + destruct (has_overwinter (fst hd)); [|reflexivity].
       cbn [negb] in H. destruct (forallb _ _); discriminate.
     + destruct (e_sap (env_of r) && negb (zip212_on (r_net r) (r_height r))); discriminate.
     + destruct (e_sap (env_of r) && negb (zip212_on (r_net r) (r_height r))); discriminate.
-  - unfold value_balance in V.
-    change (e_sap (env_of r)) with (negb (is_deferred r) && r_sap r) in V.
-    destruct (zat_sum (tin_vals (r_ops r))); [|discriminate].
-    destruct (zat_sum (map fst (tout_vs (r_ops r)))); [|discriminate].
-    destruct (negb (is_deferred r) && r_sap r); cbn [andb orb].
-    + destruct (in_bal (sapling_balance (r_ops r))); [|reflexivity]. cbn [negb] in V.
-      repeat match type of V with
-      | context [match ?x with _ => _ end] => destruct x
-      | context [if ?x then _ else _] => destruct x
-      end; discriminate.
-    + change (in_bal 0) with true in V. cbn [negb] in V.
-      repeat match type of V with
-      | context [match ?x with _ => _ end] => destruct x
-      | context [if ?x then _ else _] => destruct x
-      end; discriminate.
+  - exfalso. eapply value_balance_not_panic; eauto.
 Qed.
 
 (* ------------------------------------------------------------ propositional reading of the content clause *)
